@@ -168,6 +168,7 @@ fn create_diagnostic(err: &SplError, text: &str) -> Diagnostic {
 }
 
 /// Converts a string index to a `Position`.
+/// Characters are counted in UTF-16 code units, as the protocol demands.
 /// If the index is out of bounds, the last possible position is returned.
 pub fn as_position(index: usize, text: &str) -> Position {
     let mut line = 0;
@@ -180,7 +181,7 @@ pub fn as_position(index: usize, text: &str) -> Position {
             line += 1;
             character = 0;
         } else {
-            character += 1;
+            character += c.len_utf16() as u32;
         }
     }
     Position { line, character }
@@ -221,7 +222,7 @@ pub fn get_insertion_index(position: &Position, text: &str) -> usize {
             line += 1;
             character = 0;
         } else {
-            character += 1;
+            character += c.len_utf16() as u32;
         }
     }
     text.len()
